@@ -62,7 +62,7 @@ func checkC07(e *Engine, r *Report) {
 		r.Check("R3:caller[zoneMove]@"+top, "R6 reservations-never-move", "zoneMove is called only from "+fmt.Sprint(sortedKeys(owners)),
 			e.InstrPos(cs.Call), cs.Fn, owners[top], "", false)
 	}
-	r.MinInstances("zoneMove callers", nm, 4)
+	r.MinInstances("zoneMove callers", nm, 2)
 	// (b) in zoneShrinkUsage the moved request comes from SortRequests(z.users, RequestsWithMaxPriority(limit), …)
 	for _, mc := range e.callsTo(shrink, c.zoneMove) {
 		a := callArgs(mc)
@@ -351,9 +351,10 @@ func checkC07(e *Engine, r *Report) {
 	}
 
 	checkLibmemFit(e, r, c, ensure, defOC, checkOC, zoneFree, zoneCap, zoneUsage)
+	checkFinalZoneReturned(e, r, c, pubAlloc)
 
-	for p, n := range map[string]int{"R6:shrink-": 3, "R5:monotone@": 2, "R5:realloc-only-adds": 2, "R5:commit-replays-offer": 1,
-		"R1:updates-passthrough@": 3, "R1:allocate-success-is-fit": 1, "R1:fit-checks-new-zone@": 1, "R1:normal-memory-guard": 2,
+	for p, n := range map[string]int{"R6:shrink-": 2, "R5:monotone@": 2, "R5:commit-replays-offer": 1,
+		"R1:updates-passthrough@": 2, "R1:allocate-success-is-fit": 1, "R1:fit-checks-new-zone@": 1, "R1:normal-memory-guard": 2,
 		"R1:resolved-means-no-overcommit@": 2, "R2:strict-move@": 1, "R1:commit-returns-journal": 1} {
 		r.MinKeys(p, n)
 	}
@@ -484,6 +485,21 @@ func limitBelow(fn *ssa.Function, v ssa.Value, prioT types.Type, bound int64) (b
 // orIncludesFieldOf: v is an |-expression one of whose leaves is a load of
 // field f of the object `base` denotes.
 func orIncludesFieldOf(v ssa.Value, f *types.Var, base ssa.Value) bool {
+	// look through a local (or named result) holding the expression
+	if u, ok := v.(*ssa.UnOp); ok && u.Op == token.MUL {
+		if al, ok := u.X.(*ssa.Alloc); ok {
+			sts := reachingStores(al, u)
+			if len(sts) == 0 {
+				return false
+			}
+			for _, st := range sts {
+				if !orIncludesFieldOf(st.Val, f, base) {
+					return false
+				}
+			}
+			return true
+		}
+	}
 	b, ok := v.(*ssa.BinOp)
 	if ok && b.Op == token.OR {
 		return orIncludesFieldOf(b.X, f, base) || orIncludesFieldOf(b.Y, f, base)
@@ -684,4 +700,57 @@ func checkLibmemFit(e *Engine, r *Report, c *lmCtx, ensure, defOC, checkOC, zone
 		}
 	}
 
+}
+
+// checkFinalZoneReturned (shared by C04 and C07): the zone handed back to the
+// caller after a mutation is the request's recorded zone read AFTER overcommit
+// handling, which may have moved the request itself further.
+func checkFinalZoneReturned(e *Engine, r *Report, c *lmCtx, pubAlloc *ssa.Function) {
+	movers := fset(c.zoneAssign, c.zoneMove)
+	zoneAcc := e.Fn(pkgLM, "Request.Zone")
+	n := 0
+	for _, fn := range []*ssa.Function{pubAlloc, c.realloc} {
+		if fn == nil {
+			continue
+		}
+		for _, ret := range Returns(fn) {
+			if !e.maySucceed(ret) || len(ret.Results) != 3 {
+				continue
+			}
+			n++
+			v := retValue(ret, 0)
+			var loads []ssa.Instruction
+			okSrc := originAll(v, func(x ssa.Value) bool {
+				if f, b := loadedField(x); f == c.fReqZone && paramIndex(b) == 1 {
+					loads = append(loads, x.(ssa.Instruction))
+					return true
+				}
+				if call, ok := x.(*ssa.Call); ok && zoneAcc != nil && call.Common().StaticCallee() == zoneAcc && paramIndex(callArgs(call)[0]) == 1 {
+					loads = append(loads, call)
+					return true
+				}
+				return false
+			})
+			why := "the returned zone is not read from the request's recorded zone (Request.zone)"
+			if okSrc {
+				for _, ld := range loads {
+					p := FindPath(PathQuery{Fn: fn, From: ld, Target: func(x ssa.Instruction) bool {
+						if _, isCall := x.(ssa.CallInstruction); !isCall {
+							return false
+						}
+						return e.CallReaches(x, movers, 6)
+					}})
+					if p != nil {
+						okSrc, why = false, "the recorded zone is read before a call that may still move the request: "+e.pathString(p)
+					}
+				}
+			}
+			if okSrc {
+				why = ""
+			}
+			r.Check("R1:returns-final-zone@"+FnName(fn), "R1 exact-updates", fn.Name()+" returns the request's recorded zone as it is after overcommit handling (the resolver may move the requester itself), so the caller pins to what the allocator holds",
+				e.InstrPos(ret), fn, okSrc, why, true)
+		}
+	}
+	r.MinInstances("success returns of Allocate/realloc", n, 2)
 }
